@@ -702,8 +702,11 @@ package leveldb
 // number order (sortFds: trusted, and the filter loop keeps the order: not proved here), so retiring the number of
 // the last one retires them all.
 //@ func (*session).markFileNum
-//@   trusted
-//@   ensures s.stNextFileNum > num && s.stNextFileNum >= old(s.stNextFileNum)
+//@   props C04 C19
+//@   safety off
+//@   loop 1
+//@     invariant [C04,C19:never-goes-down] s.stNextFileNum >= old(s.stNextFileNum)
+//@   ensures [C04,C19:number-is-retired] s.stNextFileNum > num && s.stNextFileNum >= old(s.stNextFileNum)
 
 // ---------------------------------------------------------------------------
 // C20: buffers do not cross the API boundary.
